@@ -353,6 +353,7 @@ func stringLits(n ast.Node) []string {
 
 var outDir string
 var vocabFile string
+var filtersFile string
 
 func write(name, content string) {
 	if err := os.WriteFile(filepath.Join(outDir, name), []byte(content), 0o644); err != nil {
@@ -480,6 +481,7 @@ func main() {
 	flag.StringVar(&repo, "repo", "/repo", "")
 	flag.StringVar(&outDir, "out", "", "")
 	flag.StringVar(&vocabFile, "htmlvocab", "", "JSON written by `harness htmlvocab`")
+	flag.StringVar(&filtersFile, "filters", "", "JSON written by `harness filters`")
 	flag.StringVar(&encFile, "encodings", "", "JSON written by `harness encodings`")
 	flag.Parse()
 	if outDir == "" {
